@@ -17,6 +17,7 @@ up (the site is then left to the other mechanisms)."""
 from bounds import Lin
 
 LEN_DELTA = {"remove": -1, "swap_remove": -1, "push": 1, "insert": 1}
+LEN_AT_MOST = {"pop": -1}        # removes one element or none: usable for lower bounds only
 
 
 def _last(t):
@@ -35,18 +36,22 @@ def innermost_loop(bnd, bb):
     return best
 
 
-def len_ops(fn, blocks, vec_key):
-    """{bb: delta} for length-changing calls on the vector inside `blocks`; None if it is mutably used otherwise."""
+def len_ops(fn, blocks, vec_key, lower_bound=False):
+    """{bb: delta} for length-changing calls on the vector inside `blocks`; None if it is mutably used otherwise.
+    With lower_bound, `pop` counts as -1 (its worst case), which is sound for "at least so many elements remain"."""
     b, bnd = fn.b, fn.bnd
     out = {}
+    table = dict(LEN_DELTA)
+    if lower_bound:
+        table.update(LEN_AT_MOST)
     for x in blocks:
         t = b.blocks[x]["term"]
         if t["k"] == "call" and t["args"] and t["args"][0]["k"] in ("copy", "move"):
             key, _ = bnd.root_key(t["args"][0]["place"])
             if key == vec_key and "Vec" in _name(t):
                 last = _name(t).split("::")[-1]
-                if last in LEN_DELTA:
-                    out[x] = LEN_DELTA[last]
+                if last in table:
+                    out[x] = table[last]
                 elif "&mut" in (t["args"][0]["place"].get("ty") or ""):
                     return None
     # any other mutable borrow of the vector's root local inside the loop
@@ -240,7 +245,7 @@ def after_loop(fn, site_bb, vec_key, j):
     for head, blocks in bnd.cfg.loops().items():
         if site_bb in blocks or not bnd.cfg.dom(head, site_bb):
             continue
-        ops = len_ops(fn, blocks, vec_key)
+        ops = len_ops(fn, blocks, vec_key, lower_bound=True)
         if ops:
             cands.append((head, blocks, ops))
     if len(cands) != 1:
@@ -260,16 +265,26 @@ def after_loop(fn, site_bb, vec_key, j):
     if not its:
         return None
     dL = {_deltas(p, ops) for p in its}
-    if dL != {-1}:
+    if min(dL) < -1:
         return None
     ln = Lin({("len", vec_key): 1})
-    # which index drives the loop: the operand of the removal inside it
+    # which index drives the loop: the operand of the removal inside it, or (for `pop`) the range the loop iterates
     rem = [x for x in ops if _name(b.blocks[x]["term"]).split("::")[-1] in ("remove", "swap_remove")]
-    if len(rem) != 1:
-        return None
-    idxop = b.blocks[rem[0]]["term"]["args"][1]
-    kind = index_kind(fn, blocks, idxop)
+    kind = None
+    if len(rem) == 1 and dL == {-1}:
+        kind = index_kind(fn, blocks, b.blocks[rem[0]]["term"]["args"][1])
     if kind is None:
+        # a loop driven by a range whose items are not used as the index (`for _ in a..=b { v.pop() }`)
+        for x in sorted(blocks):
+            t = b.blocks[x]["term"]
+            if t["k"] == "call" and _name(t).split("::")[-1] in ("next", "next_back") and t["args"] and \
+                    t["args"][0]["k"] in ("copy", "move") and not t["args"][0]["place"]["p"]:
+                ch = range_chain(bnd, t["args"][0]["place"]["l"])
+                if ch is not None:
+                    kind = ("range", x, ch)
+    if kind is None:
+        return None
+    if kind[0] == "counter" and dL != {-1}:
         return None
     if kind[0] == "counter":
         _, c, steps = kind
